@@ -42,6 +42,15 @@ def load_catalogue():
                 m = json.load(open(mp))
                 cat['seeded_' + d] = {'property': m['property'], 'why': m.get('needs', ''), 'patch': pp, 'source': 'sub-agent',
                                       'expect': m.get('expect', 'detect')}
+    controls = os.path.join(VERIF, 'controls')
+    if os.path.isdir(controls):
+        for d in sorted(os.listdir(controls)):
+            mp = os.path.join(controls, d, 'meta.json')
+            pp = os.path.join(controls, d, 'patch.diff')
+            if os.path.exists(mp) and os.path.exists(pp):
+                m = json.load(open(mp))
+                cat['control_' + d] = {'property': 'ALL', 'why': m.get('what', ''), 'patch': pp,
+                                       'source': 'sub-agent (negative control)', 'expect': 'pass'}
     return cat
 
 
@@ -76,6 +85,19 @@ def run_one(name, m, repo, with_tests=True, budget=None, seed=0):
         env2 = dict(os.environ)
         env2['VERIF_REPO'] = scratch
         env2['VERIF_SEED'] = str(seed)
+        if m.get('expect') == 'pass':
+            # negative control: a correct change; every check must stay silent
+            t0 = time.time()
+            out['checks'] = {}
+            for prop in ('C04', 'C14', 'C15', 'C16'):
+                p = subprocess.run([PY, os.path.join(VERIF, 'check.py'), prop, '--tier', 'quick'], cwd=VERIF,
+                                   capture_output=True, text=True, env=env2)
+                out['checks'][prop] = p.returncode
+                if p.returncode != 0:
+                    out.setdefault('tail', []).extend(p.stdout.splitlines()[-8:])
+            out['check_s'] = round(time.time() - t0, 1)
+            out['status'] = 'silent-as-expected' if all(v == 0 for v in out['checks'].values()) else 'FALSE-ALARM'
+            return out
         cmd = [PY, os.path.join(VERIF, 'check.py'), m['property'], '--tier', 'quick']
         if budget:
             cmd += ['--budget', str(budget)]
@@ -142,7 +164,7 @@ def main(only=None, with_tests=True):
         summary[r['status']] = summary.get(r['status'], 0) + 1
     json.dump({'summary': summary, 'results': allr}, open(path, 'w'), indent=1)
     print('summary', summary)
-    bad = [r for r in results if r['status'] in ('MISSED', 'harness-error', 'patch-failed')]
+    bad = [r for r in results if r['status'] in ('MISSED', 'harness-error', 'patch-failed', 'FALSE-ALARM')]
     return 0 if not bad else 1
 
 
